@@ -39,7 +39,12 @@ func runSession(tw *toolWorld, cases []tooldriver.Case, timeout time.Duration) [
 			w.kill()
 		}
 	}()
+	general := timeout
 	for i := range cases {
+		timeout := general
+		if ws := time.Duration(cases[i].WallS) * time.Second; ws > timeout {
+			timeout = ws // a big input: its own, size-dependent limit
+		}
 		line, st, detail := w.call(&cases[i], timeout)
 		switch st {
 		case callTimeout:
@@ -242,7 +247,7 @@ func schedEvidence(tw *toolWorld) map[string]any {
 		"unsupported_constructs": r.TaskUnsupported, "channel_operations_rewritten": r.ChanOps, "select_statements_rewritten": r.Selects, "time_calls_rewritten": r.TimeCalls,
 		"runs_with_goroutines": t.RunsWithTasks, "tasks_spawned": t.Spawned, "task_switches": t.Switches, "timers_fired": t.TimersFired,
 		"timers_fired_while_tasks_were_runnable": t.EarlyFires, "blocked_polls": t.Polls,
-		"sync_uses": r.SyncUses,
+		"sync_uses": r.SyncUses, "environment_reads_in_main_ast_builder": r.EnvReads,
 		"note": "the seam is active when main/ast/builder contain go statements, timers or uses of package sync (the pinned tree: only the sync.Pool of the generated front-end parser, no go statement, no timer): every goroutine of those packages, and the second build of the concurrent library-style double build (C19), is a task of a seeded cooperative scheduler (package simtask), preempted at instrumentation steps; locks of package sync are cooperative",
 	}
 }
